@@ -34,7 +34,7 @@ def f64Ops : Ops Float where
     | .abs => Float.abs
   call2
     | .atan2 => Float.atan2 | .pow => Float.pow | .fmod => fun _ _ => 0.0/0.0
-  call3 _ _ _ _ := 0.0/0.0
+  call3 _ a b c := a * b + c     -- fma: only used by the counterexample search (units with fma are skipped by the bit-exact correspondence)
   band _ _ := 0
   bor _ _ := 0
   bxor _ _ := 0
